@@ -3,7 +3,7 @@
 EXTENDS ConfigLoadDomain, TLC, Json, IOUtils
 
 Thorough == IOEnv.VF_TIER = "thorough"
-All == SetToSeq(IF Thorough THEN FilesThorough ELSE FilesQuick)
+All == SetToSeq(Files(Thorough))
 B == 200
 Batches == [b \in 1..((Len(All) + B - 1) \div B) |->
               [cases |-> [k \in 1..(IF b * B <= Len(All) THEN B ELSE Len(All) - (b - 1) * B) |->
